@@ -264,6 +264,80 @@ def r7(p, rep):
             rep.ok("C03.R7", f"{f.qualname}:locals", f.loc, f"{len(da.locals)} locals are assigned on every path before each read")
 
 
+def r8(p, rep):
+    rep.rule("C03.R8", "sequences that come from different arguments of a validation entry point are zipped only after their lengths were compared (a surplus / missing tensor is an error, not silently truncated)", "T-DOM (length comparison dominates zip(strict=False))", floor=3)
+    from sa.cfg import CFG
+
+    for f in p.funcs.values():
+        if not any(f.module.name.endswith(m) for m in VALIDATION_MODULES) or not isinstance(f.node, (ast.FunctionDef, ast.AsyncFunctionDef)):
+            continue
+        cfg = None
+        for c in walk_no_nested(f.node):
+            if not (isinstance(c, ast.Call) and isinstance(c.func, ast.Name) and c.func.id == "zip" and len(c.args) == 2):
+                continue
+            if any(k.arg == "strict" and isinstance(k.value, ast.Constant) and k.value.value is True for k in c.keywords):
+                continue
+            o1, o2 = (common.origin_params(f, a) for a in c.args)
+            if not o1 or not o2 or (o1 & o2):
+                continue
+            cfg = cfg or CFG(f.node)
+            a1, a2 = norm(c.args[0]), norm(c.args[1])
+            ok = False
+            for t, pol in cfg.guards_of_ast(c):
+                if isinstance(t, ast.Compare) and len(t.ops) == 1 and isinstance(t.ops[0], (ast.Eq, ast.NotEq)):
+                    sides = {norm(t.left), norm(t.comparators[0])}
+                    lens = {f"len({x})" for x in (a1, a2)}
+                    # the compared sequences are the zipped ones or the parameters they are derived from
+                    alts1 = {f"len({x})" for x in {a1} | o1}
+                    alts2 = {f"len({x})" for x in {a2} | o2}
+                    if (sides & alts1) and (sides & alts2) and (isinstance(t.ops[0], ast.Eq) == pol):
+                        ok = True
+            rep.add("C03.R8", f"{f.qualname}:zip({a1},{a2})", f"{f.module.rel}:{c.lineno}", ok, f"reached only when len({a1}) == len({a2}) was established" if ok else f"`{norm(c)[:60]}` pairs values that come from different arguments ({sorted(o1)} / {sorted(o2)}) without a preceding length comparison: with one tensor too many or too few the surplus is silently dropped and a plausible result is returned instead of the documented ValueError")
+
+
+def r9(p, rep):
+    rep.rule("C03.R9", "the number of input expressions is validated before anything is derived from them", "T-DOM [S] (arity guard dominates the derivation of the output expressions)", floor=2)
+    from sa.cfg import CFG
+
+    f = p.func("_parse_op", "adapter.einx_from_namedtensor")
+    cfg = CFG(f.node)
+    # role: the names handed to stage1.Op([Args(<in>), Args(<out>)])
+    roles = None
+    for n in walk_no_nested(f.node):
+        if isinstance(n, ast.Call) and norm(n.func).endswith("Op") and n.args and isinstance(n.args[0], ast.List) and len(n.args[0].elts) == 2:
+            a, b = n.args[0].elts
+            if all(isinstance(x, ast.Call) and norm(x.func).endswith("Args") and x.args and isinstance(x.args[0], ast.Name) for x in (a, b)):
+                roles = (a.args[0].id, b.args[0].id)
+    if roles is None:
+        raise AnalysisError("unrecognised idiom: _parse_op does not rebuild stage1.Op([Args(in), Args(out)]) from two names")
+    in_name, out_name = roles
+
+    def is_len(e):
+        return isinstance(e, ast.Call) and isinstance(e.func, ast.Name) and e.func.id == "len" and e.args
+
+    def input_side(e):
+        return any(isinstance(x, ast.Subscript) and isinstance(x.slice, ast.Constant) and x.slice.value == 0 and isinstance(x.value, ast.Attribute) and x.value.attr == "children" for x in ast.walk(e))
+
+    guards = []
+    for n in walk_no_nested(f.node):
+        if isinstance(n, ast.If) and isinstance(n.test, ast.Compare) and len(n.test.ops) == 1 and isinstance(n.test.ops[0], ast.NotEq) and is_len(n.test.left) and is_len(n.test.comparators[0]) and input_side(n.test.left) and input_side(n.test.comparators[0]) and block_always_raises(n.body):
+            guards.append(n)
+    if not guards:
+        rep.violation("C03.R9", f"{f.qualname}:input-arity-guard", f.loc, "no guard compares the number of given input expressions with the number the operation expects")
+        return
+    rep.ok("C03.R9", f"{f.qualname}:input-arity-guard", f"{f.module.rel}:{guards[0].lineno}", f"`{norm(guards[0].test)[:80]}` raises a documented error")
+    derivs = [n for n in walk_no_nested(f.node) if isinstance(n, ast.Assign) and any(isinstance(t, ast.Name) and t.id == out_name for t in n.targets) and any(isinstance(x, ast.Name) and x.id == in_name for x in ast.walk(n.value))]
+    if not derivs:
+        raise AnalysisError(f"unrecognised idiom: `{out_name}` is never derived from `{in_name}` in _parse_op")
+    late = []
+    for d in derivs:
+        facts = cfg.guards(cfg.node_for(d))
+        if not any((not pol) and any(t is g.test for g in guards) for t, pol in facts):
+            late.append(d)
+    ok = not late
+    rep.add("C03.R9", f"{f.qualname}:derivation-after-arity-check", f"{f.module.rel}:{(late[0] if late else derivs[0]).lineno}", ok, f"all {len(derivs)} derivations of `{out_name}` from `{in_name}` run after the arity check passed" if ok else f"`{norm(late[0])[:70]}` derives the output expressions before the number of input expressions was checked: a call with a surplus / missing expression reaches index and assert statements of the derivation (AssertionError / IndexError) instead of the documented SemanticError")
+
+
 def run(p, rep, tier):
     r1(p, rep)
     r2(p, rep, tier)
@@ -273,6 +347,8 @@ def run(p, rep, tier):
     r5(p, rep)
     r6(p, rep)
     r7(p, rep)
+    r8(p, rep)
+    r9(p, rep)
     # clauses shared with C02 / C12 whose violation surfaces as an internal exception type of an entry point
     from . import c02, c12
 
